@@ -131,6 +131,17 @@ class SOpaque(Sym):
         return f"SOpaque({self.tag}:{self.t})"
 
 
+class Star:
+    """*seq at a call site where seq is symbolic (a list of symbolic length or an opaque sequence): kept as one argument; only callees
+    that say how they take it (a *args parameter under contract, an explicit model) accept it"""
+
+    def __init__(self, seq):
+        self.seq = seq
+
+    def __repr__(self):
+        return f"Star({self.seq!r})"
+
+
 class SSlice(Sym):
     def __init__(self, start, stop):
         self.start = start
